@@ -31,7 +31,7 @@ func main() {
 		panic(err)
 	}
 	switch *family {
-	case "engine", "fe", "modes", "builder", "purity":
+	case "engine", "fe", "modes", "builder", "purity", "history":
 		engine(*family, *profile, *seed, *n, *out, *shard, *ids)
 	default:
 		only := map[int]bool{}
@@ -116,6 +116,13 @@ func engine(family, profile string, seed uint64, n int, out string, shard int, i
 				flush()
 			}
 			continue
+		} else if family == "history" {
+			var tags []string
+			var detail string
+			c, tags, detail = eng.NewHistoryCase(g, i)
+			if len(tags) > 0 {
+				failures = append(failures, map[string]any{"id": i, "tags": tags, "detail": detail})
+			}
 		} else if family == "purity" {
 			var tags []string
 			var detail string
